@@ -104,10 +104,24 @@ package raftlog
 //@   call (*logFile).delete
 //@     frame nothing
 //@     set curDel = curDel || recv == cur0
+// An entry becomes visible through its slot header: the header of slot k is written only after the payload of
+// slot k was written without error (a fault between the two writes must leave the slot empty, never a valid
+// header pointing at stale bytes).
+//@   ghost pw int = -1
+//@   call .WriteSlice
+//@     set pw = (ret0 == nil ? arg0 : -1)
+//@     frame nothing
+//@   call (*logFile).getEntry
+//@     frame nothing
+//@   call .WriteAt
+//@     requires [payload_before_header] pw == arg0
 //@   ensures result == nil && asked && li >= 0 && fi != -1 ==> curDel && locked
 //@   loop 1
 //@     invariant locked && (curDel || (rangeindex < len(extra) - 1 && extra[len(extra)-1] == cur0))
 
+// writes the 32-byte slot buffer it is given and nothing else
+//@ func marshalEntry
+//@   trusted_assigns elements
 //@ func (*FileWrapV2).Name
 //@   trusted_assigns nothing
 
